@@ -61,8 +61,17 @@ def match_known(prop, sig):
     return None
 
 
-def sim_check(ctx, families_quick, families_thorough, per_family, assume, extra_cov=None):
-    """families_*: list of family names; per_family: (quick, thorough) scenario counts"""
+def sim_check(ctx, families_quick, families_thorough, per_family, assume, extra_cov=None, proof=None):
+    """families_*: list of family names; per_family: (quick, thorough) scenario counts.
+    proof = dict(prop_file, theorems, tf_families, tf_per_family=(q, t), note): Coq theorems over the token-flow
+    model + trace validation of the real code against that model."""
+    pr = tv = None
+    if proof is not None:
+        from checks import tfcommon
+        pr = vlib.prove(ctx, proof["prop_file"], ["__none__"])
+        if pr["ok"]:
+            ntf = proof["tf_per_family"][0] if ctx.tier == "quick" else proof["tf_per_family"][1]
+            tv = tfcommon.validate(ctx, proof["tf_families"], ntf)
     fams = families_quick if ctx.tier == "quick" else families_thorough
     n = per_family[0] if ctx.tier == "quick" else per_family[1]
     chunk = max(50, min(400, n // 2))
@@ -127,7 +136,26 @@ def sim_check(ctx, families_quick, families_thorough, per_family, assume, extra_
             "how_to_replay": f"./check {ctx.prop} --replay <this file>   (re-runs the recorded schedule on the real loky code "
                              "over the simulated kernel)"})
         ctx.violations.append((f"{a['kind']}: {sig[:200]}", rp, False))
-    ctx.level = "exploration"
+    if proof is not None:
+        if not pr["ok"]:
+            rp = vlib.write_replay(ctx, "broken", {"kind": "proof obligation no longer checks", "detail": pr.get("broken"),
+                                                   "searched": f"{total} simulated schedules with the property monitors"})
+            what = pr["broken"].get("lemma") or pr["broken"].get("kind")
+            if not ctx.violations:
+                ctx.violations.append((f"{pr['broken']['kind']} ({what}) no longer checks", rp, True))
+        elif not tv["ok"] or tv["failed"]:
+            first = tv["failed"][0] if tv["failed"] else None
+            rp = vlib.write_replay(ctx, "correspondence", {
+                "kind": "trace validation against coq/Model/TokenFlow.v failed: the real code made an observable change "
+                        "that no step of the model explains",
+                "failed_traces": len(tv["failed"]), "of": tv["traces"], "error": tv.get("error"),
+                "first": None if first is None else {"trace": first[0], "event_index": first[1], "plan": first[2], "seed": first[3]},
+                "how_to_replay": "corr/sim/tf_batch.py <family> <seed> 1 out.txt && coq/extract/tf_check out.txt",
+                "searched": f"{total} simulated schedules with the property monitors"})
+            if not ctx.violations:
+                ctx.violations.append((f"model/implementation correspondence broken on {len(tv['failed'])} of "
+                                       f"{tv['traces']} traces (Model/TokenFlow.v)", rp, True))
+    ctx.level = "exploration" if proof is None else "proof"
     ctx.coverage = {
         "evaluations": total,
         "distinct_nontrivial": len(distinct),
@@ -142,6 +170,25 @@ def sim_check(ctx, families_quick, families_thorough, per_family, assume, extra_
         "new_anomaly_signatures": len(new),
         "samples": [sample] if sample else [{"note": "no sample with >= 3 tasks"}],
     }
+    if proof is not None:
+        ctx.coverage.update({
+            "obligations": pr.get("obligations", 0) or 1,
+            "discharged": pr.get("obligations", 0) if pr["ok"] else 0,
+            "checker_cmd": f"cd /verif/coq && make {proof['prop_file'].replace('.v', '.vo')} + Print Assumptions; "
+                           "extraction (ExtrOcamlBasic) of Model/TokenFlowCheck.validate, cross-checked by vm_compute",
+            "trusted_base": vlib.TRUSTED_BASE + [
+                "extraction with ExtrOcamlBasic only (Extract Inductive bool/option/unit/list/prod/sumbool; no Extract Constant), "
+                "coq/extract/tf_driver.ml (trace parser)",
+                "the observation function of corr/sim/tftrace.py (what is read off the real objects after each step)"],
+            "theorems": proof["theorems"], "print_assumptions": pr.get("assumptions"),
+            "traces_validated_against_impl": (tv or {}).get("traces", 0),
+            "trace_events": (tv or {}).get("events", 0),
+            "traces_rejected": len((tv or {}).get("failed", [])),
+            "extraction_cross_check": (tv or {}).get("cross"),
+            "modelled_not_verified": proof.get("note", ""),
+        })
+        if tv and tv.get("sample"):
+            ctx.coverage["samples"].append(tv["sample"])
     if extra_cov:
         ctx.coverage.update(extra_cov)
     return vlib.finish(ctx, assume)
